@@ -6,8 +6,8 @@ import runner
 def replay(prop, path):
     d = json.load(open(path))
     w = d.get("witness")
-    tool = os.path.join(runner.BUILD, "replay-target", "release", "replay")
-    if w and os.path.exists(tool):
+    tool = runner.build_replay_tool() if w else None
+    if w and tool:
         p = subprocess.run([tool, "replay", path], text=True)
         return 1 if p.returncode == 1 else (0 if p.returncode == 0 else 2)
     # no concrete input: re-run the verifier on the slice and report whether the obligation still fails
